@@ -9,6 +9,7 @@
 package c10
 
 import (
+	"bytes"
 	"encoding/json"
 	"fmt"
 	"math/rand"
@@ -1002,9 +1003,11 @@ func TestCheck(t *testing.T) {
 			cmd := exec.Command(exe, "-test.run", "^TestCheck$", "-test.count", "1", "-test.timeout", "0")
 			cmd.Env = append(os.Environ(), "GOMAXPROCS=1", "VERIF_C10_OUT="+out,
 				"VERIF_TIER="+run.Tier(), fmt.Sprintf("VERIF_C10_SHARD=%d/%d/%d", i, of, run.Seed()))
-			cmd.Stderr = os.Stderr
-			cmd.Stdout = os.Stderr
+			var childOut bytes.Buffer
+			cmd.Stderr = os.Stderr // fatal runtime errors of a shard end up in the log of the run
+			cmd.Stdout = &childOut
 			if err := cmd.Run(); err != nil {
+				os.Stderr.Write(childOut.Bytes())
 				errs[i] = err
 				return
 			}
